@@ -78,6 +78,7 @@ structure State where
   answered : Nat := 0           -- requests answered (200, non-200 or transport failure)
   failed : Bool := false        -- some request was not answered 200
   readOut : List Bytes := []    -- data returned by the Reads, in order
+  dropped : List Bytes := []    -- response bodies discarded by a worker that saw the close while handing over
   out : List Obs := []          -- results of the application's calls, newest first
 deriving DecidableEq, Repr
 
@@ -179,6 +180,11 @@ def step (fixed : Bool) (s : State) : Choice → State
   | .wClose =>
     match s.wpc with
     | .sel => if s.closed then { s with wpc := .x1 } else s
+    -- The released worker hands the response over with a plain channel send and so stays
+    -- blocked at `enq` for ever when the queue is full and nobody reads.  A worker that also
+    -- selects on the close channel at this point (the repair proposed under C10) gives the
+    -- response up and exits; the model allows that step too (trace inclusion covers both).
+    | .enq body => if s.closed then { s with wpc := .x1, dropped := s.dropped ++ [body] } else s
     | _ => s
   | .wStep => stepWorker s
   | .sOk body =>
